@@ -24,20 +24,20 @@ Open Scope N_scope.
 (* validators_total: on ANY valid UTF-8 string no validator, no renaming function and no
    argument check of browse / resolve_hostname panics (wherever multi-byte characters, dots,
    backslashes, parentheses, hyphens or suffixes are). *)
-Theorem C15_validators_total : forall s,
+Theorem C15_validators_total : forall lc s,
   utf8_valid s = true ->
   safe (check_domain_suffix s) /\ safe (check_service_name s)
   /\ (forall lim, safe (check_service_name_length s lim)) /\ safe (check_hostname s)
-  /\ safe (check_label_lengths s) /\ safe (name_change s) /\ safe (hostname_change s)
+  /\ safe (check_label_lengths lc s) /\ safe (name_change s) /\ safe (hostname_change s)
   /\ (exists r, normalize_hostname s = Ok r)
-  /\ safe (api_browse s) /\ safe (api_resolve_hostname s).
+  /\ safe (api_browse lc s) /\ safe (api_resolve_hostname lc s).
 Proof. exact validators_total. Qed.
 
 (* ... and ServiceInfo::new followed by register() does not panic for any three valid UTF-8
    strings (type, instance name, host name). *)
-Theorem C15_register_total : forall ty nm host,
+Theorem C15_register_total : forall lc ty nm host,
   utf8_valid ty = true -> utf8_valid nm = true -> utf8_valid host = true ->
-  (exists r, si_names ty nm host = Ok r) /\ safe (api_register ty nm host).
+  (exists r, si_names ty nm host = Ok r) /\ safe (api_register lc ty nm host).
 Proof. exact register_total. Qed.
 
 (* `&name[1..]` in check_service_name: behind `starts_with('_')` the index 1 is in range and
@@ -46,29 +46,30 @@ Theorem C15_service_label_slice_safe : forall name,
   nca name = true -> first_is USC name = true -> exists r, slice name 1 (length name) = Ok r.
 Proof. exact service_label_slice_safe. Qed.
 
-(* accepted_is_encodable: a name accepted by browse / resolve_hostname has only labels of
-   1..63 bytes under the encoder's own label split, and the encoder model cannot panic on it
-   (whatever the compression table and position). *)
-Theorem C15_accepted_is_encodable_browse : forall ty,
-  wf_bytes ty -> api_browse ty = Ok tt ->
-  Forall (fun l => 1 <= blen l /\ blen l <= 63) (name_labels ty)
-  /\ forall t pos, exists r, write_name t pos ty = Ok r.
+(* accepted_is_encodable.  `lc` stands for str::to_lowercase (Unicode case mapping is not
+   modelled; since 4c6b25c check_label_lengths tests the lower-cased spelling too, because the
+   daemon keys its maps by it and sends some queries under that key).  The theorems hold for
+   EVERY function lc: a name accepted by browse / resolve_hostname has only labels of 1..63
+   bytes under the encoder's own label split, as given AND as `lc name`, and the encoder model
+   cannot panic on either spelling (whatever the compression table and position). *)
+Theorem C15_accepted_is_encodable_browse : forall lc ty,
+  wf_bytes ty -> wf_bytes (lc ty) -> api_browse lc ty = Ok tt -> enc_ok ty /\ enc_ok (lc ty).
 Proof. exact browse_accepted. Qed.
 
-Theorem C15_accepted_is_encodable_resolve : forall h,
-  wf_bytes h -> api_resolve_hostname h = Ok tt ->
-  Forall (fun l => 1 <= blen l /\ blen l <= 63) (name_labels h)
-  /\ forall t pos, exists r, write_name t pos h = Ok r.
+Theorem C15_accepted_is_encodable_resolve : forall lc h,
+  wf_bytes h -> wf_bytes (lc h) -> api_resolve_hostname lc h = Ok tt -> enc_ok h /\ enc_ok (lc h).
 Proof. exact resolve_accepted. Qed.
 
 (* ... and for an accepted registration: the full name, the type (although only the full
    name is checked: the escaped instance name is exactly one label), the host name and the
-   subtype name. *)
-Theorem C15_accepted_is_encodable_register : forall ty nm host tyd sub full server,
+   subtype name as given; the full name, the host name and the subtype name lower-cased. *)
+Theorem C15_accepted_is_encodable_register : forall lc ty nm host tyd sub full server,
   wf_bytes ty -> wf_bytes nm -> wf_bytes host ->
   si_names ty nm host = Ok (tyd, sub, full, server) ->
-  api_register ty nm host = Ok tt ->
-  enc_ok full /\ enc_ok tyd /\ enc_ok server /\ (forall s, sub = Some s -> enc_ok s).
+  api_register lc ty nm host = Ok tt ->
+  enc_ok full /\ enc_ok tyd /\ enc_ok server /\ (forall s, sub = Some s -> enc_ok s)
+  /\ (wf_bytes (lc full) -> enc_ok (lc full)) /\ (wf_bytes (lc server) -> enc_ok (lc server))
+  /\ (forall s, sub = Some s -> wf_bytes (lc s) -> enc_ok (lc s)).
 Proof. exact register_accepted. Qed.
 
 (* rename_stays_encodable (was refuted before c85b8fe): ANY number of conflict renames of a
@@ -141,11 +142,12 @@ Proof. exact params_pinned_c15. Qed.
    multi-byte service label are refused (not panics); renaming examples. *)
 Definition ex_sub_ty : bytes := [95;112;46;95;115;117;98;46;95;120;46;95;116;99;112;46;108;111;99;97;108;46]. (* _p._sub._x._tcp.local. *)
 Example C15_examples :
-  api_register ex_sub_ty [195;169;46;98] [195;169;46;108;111;99;97;108;46] = Ok tt
-  /\ api_browse (repeat 97 63 ++ tcp_suffix) = Ok tt
-  /\ api_browse (repeat 97 64 ++ tcp_suffix) = Err
-  /\ api_register tcp_suffix [105] h_local = Err
-  /\ api_register ([195;169] ++ tcp_suffix) [105] h_local = Err
+  api_register lower ex_sub_ty [195;169;46;98] [195;169;46;108;111;99;97;108;46] = Ok tt
+  /\ api_browse lower (repeat 97 63 ++ tcp_suffix) = Ok tt
+  /\ api_browse lower (repeat 97 64 ++ tcp_suffix) = Err
+  /\ api_resolve_hostname (fun _ => repeat 105 64 ++ local_suffix) (repeat 97 60 ++ local_suffix) = Err
+  /\ api_register lower tcp_suffix [105] h_local = Err
+  /\ api_register lower ([195;169] ++ tcp_suffix) [105] h_local = Err
   /\ name_change [102;111;111;32;40;57;41;46;120;46] = Ok [102;111;111;32;40;49;48;41;46;120;46]
   /\ hostname_change [195;169;45;50;46;108;111;99;97;108;46] = Ok [195;169;45;51;46;108;111;99;97;108;46]
   /\ name_change (repeat 97 63 ++ [46;120;46]) = Ok (repeat 97 59 ++ [32;40;50;41;46;120;46])
